@@ -78,6 +78,16 @@ def real_pythonpath(only=None):
     return _scratch
 
 
+_CACHE_HOME = None
+def _cache_home():
+    global _CACHE_HOME
+    if _CACHE_HOME is None:
+        import atexit, tempfile
+        _CACHE_HOME = tempfile.mkdtemp(prefix='verif_pyiga_cache_')
+        atexit.register(shutil.rmtree, _CACHE_HOME, ignore_errors=True)
+    return _CACHE_HOME
+
+
 def run_real(code, payload, timeout=600, only=None):
     """run python `code` (a script reading JSON from stdin, printing JSON to stdout as last line) against
     the real build"""
@@ -85,6 +95,9 @@ def run_real(code, payload, timeout=600, only=None):
     env = dict(os.environ)
     env['PYTHONPATH'] = pp + os.pathsep + VERIF
     env.pop('PYIGA_VERIF', None)
+    # pyiga's on-disk cache of compiled assembler modules (platformdirs user cache) is keyed by the form hash only: a module compiled
+    # from an earlier state of the tree would be reused.  Every checking process gets its own empty cache directory.
+    env['XDG_CACHE_HOME'] = _cache_home()
     r = subprocess.run([os.path.join(VERIF, '.venv', 'bin', 'python'), '-c', code], input=json.dumps(payload),
                        capture_output=True, text=True, env=env, timeout=timeout, cwd='/tmp')
     if r.returncode != 0:
